@@ -203,7 +203,7 @@ func checkC07(c *Ctx) {
 		//     use before let, loop variable outside its loop, shadowed params ...)
 		one(body, params, variant, "none", false)
 		// mutations at every applicable site; applied to every 3rd body in the quick tier to bound the cost
-		if !c.Thorough() && seenBodies%3 != 0 {
+		if !c.Thorough() && seenBodies%6 != 0 {
 			return
 		}
 		// (1) unused param
@@ -222,7 +222,7 @@ func checkC07(c *Ctx) {
 		tmp := cloneCmds(body)
 		walkCmds(&tmp, func(list *[]*Cmd, i int) { nsites++ })
 		for site := 0; site < nsites; site++ {
-			for _, kind := range []string{"rename-ref", "unused-let", "let-ij", "undeclared-call-param", "unknown-callee", "missing-required", "delete"} {
+			for _, kind := range []string{"rename-ref", "unused-let", "let-ij", "undeclared-call-param", "unknown-callee", "missing-required", "missing-required-after-optional", "drop-one-call-param", "delete"} {
 				b2 := cloneCmds(body)
 				idx := 0
 				applied := false
@@ -261,6 +261,18 @@ func checkC07(c *Ctx) {
 						if cm.K == "call" && len(cm.Call.Params) <= 1 {
 							cm.Call.Name, cm.Call.Target = "deep.rec", "lib.deep.rec"
 							cm.Call.Params = nil
+							applied = true
+						}
+					case "missing-required-after-optional":
+						if cm.K == "call" && len(cm.Call.Params) <= 1 {
+							cm.Call.Name, cm.Call.Target = "deep.mixed", "lib.deep.mixed"
+							cm.Call.AllData, cm.Call.Data = false, nil
+							cm.Call.Params = []CallParam{{Key: "o", Value: I(1)}, {Key: "r", Value: I(2)}}
+							applied = true
+						}
+					case "drop-one-call-param":
+						if cm.K == "call" && len(cm.Call.Params) > 0 {
+							cm.Call.Params = cm.Call.Params[1:]
 							applied = true
 						}
 					case "delete":
